@@ -285,6 +285,21 @@ def run(ctx):
         evals += 1
         if want != seps[tag][0]:
             disagreements.append({"what": "separators of a language tag", "tag": tag, "impl": seps[tag][0], "model": want, "lines": seps[tag][2]})
+    # ... also when the language comes from the host: Language=Auto + LanguageAuto=<tag> derives the separators of <tag>
+    n_tag_auto = 0
+    for tag in TAGS:
+        if tag in ("ZZ", "FR", "EN-gb"):
+            continue
+        reqs = base_pre + [{"op": "set_pref", "name": "DecimalSeparator", "value": "Auto"}, {"op": "set_pref", "name": "Language", "value": "Auto"}, {"op": "set_pref", "name": "LanguageAuto", "value": tag},
+                           {"op": "get_pref", "name": "DecimalSeparators"}, {"op": "get_pref", "name": "BlockSeparators"}]
+        rep = im.run(reqs)[len(base_pre):]
+        n_tag_auto += 1
+        evals += 1
+        if any(r.get("r") != "ok" for r in rep[:3]):
+            continue
+        got = [r.get("v") if r.get("r") == "ok" else {"r": r.get("r")} for r in rep[3:5]]
+        if got != seps[tag][0]:
+            oracle_fail.append({"why": "the separators do not follow the language given through Language=Auto + LanguageAuto", "tag": tag, "separators": got, "separators_with_Language": seps[tag][0], "lines": reqs[1:]})
     for tag in TAGS:
         low = tag.lower()
         if low != tag and low in seps and seps[tag][:2] != seps[low][:2]:
@@ -293,7 +308,7 @@ def run(ctx):
     im.close()
     mo.close()
     ctx.coverage.update({
-        "separator_switches_inside_a_session": n_switch, "language_tags": n_tags, "language_tags_against_the_preference_model": n_tag_model,
+        "separator_switches_inside_a_session": n_switch, "language_tags": n_tags, "language_tags_against_the_preference_model": n_tag_model, "language_tags_through_LanguageAuto": n_tag_auto,
         "evaluations": evals, "distinct_nontrivial": len(nontriv),
         "rule": "H4: generated/mutated number strings (locale grammar, hex blocks, U+FFFF digit runs, junk) on the 7 regexes in 4 separator settings; merge scan: full / partial / junk-injected token "
                 "splits in a neutral context; oracle: unsplit vs full and partial splits in 5 contexts (sum, exponent, fraction, argument, end of sentence) x 4 settings, canonical MathML + speech + braille; "
